@@ -2811,6 +2811,12 @@ impl RaftNode {
 
         let entry = LogEntry::codebook(term, index, CodebookChange::replace(snapshot));
         persistent.log.push(entry);
+
+        // Persist to WAL if enabled, exactly as `propose` does for block entries
+        if let Err(e) = self.persist_log_entry(&persistent.log[persistent.log.len() - 1]) {
+            persistent.log.pop(); // Rollback on failure
+            return Err(e);
+        }
         drop(persistent);
 
         Ok(index)
